@@ -644,11 +644,14 @@ def strategy():
 
 def shards(tier):
     n = 8 if tier == 'quick' else 48
-    out = [{'examples': 400 if tier == 'quick' else 3000, 'replay_seeds': 2 if tier == 'quick' else 4} for _ in range(n)]
+    out = [{'examples': 400 if tier == 'quick' else 2000, 'replay_seeds': 2 if tier == 'quick' else 4} for _ in range(n)]
     out += [{'mode': 'alike'}] + [{'mode': 'chains', 'part': k, 'parts': 3} for k in range(3)]
     out += [{'mode': 'meta', 'fresh_per': 'case' if tier == 'quick' else ('call' if i % 2 else 'case'),
-             'examples': 700 if tier == 'quick' else 2500} for i in range(4 if tier == 'quick' else 12)]
+             'examples': 700 if tier == 'quick' else 1500} for i in range(4 if tier == 'quick' else 12)]
     return out
+
+
+SHARD_TIMEOUT = {'quick': 300, 'thorough': 5400}      # the thorough tier took 34 minutes wall in all on an otherwise idle machine
 
 
 def run_shard(spec, ctx):
